@@ -115,3 +115,22 @@ def show_tgt_trace(text, seed, ft=40000, name="trace1"):
             f"Eval vm_compute in (trace_tgt_float {ft} T0 {seed}%Z)."]
     rc, out, err = core.coqc_text(name, "\n".join(body), 300)
     return re.sub(r"\s+", " ", out)[-3000:] if rc == 0 else err[-1500:]
+
+
+def tgt_traces(texts, seed=1, fuel=400, shard=16, name="ttr", timeout=600):
+    """texts: list of emitted IC10 texts -> list of printed effect traces (one string per text)."""
+    shards = [(i, texts[i:i + shard]) for i in range(0, len(texts), shard)]
+
+    def one(arg):
+        off, cs = arg
+        body = [HEADER]
+        for j, t in enumerate(cs):
+            body.append(f"Definition T{j} : @program float := {Parsed(t).coq()}.")
+            body.append(f"Eval vm_compute in (trace_tgt_float {fuel} T{j} {seed}%Z).")
+        return _run_file(f"{name}_{off}", "\n".join(body), timeout)
+
+    out = []
+    with ThreadPoolExecutor(max_workers=12) as ex:
+        for r in ex.map(one, shards):
+            out += r
+    return out
